@@ -37,7 +37,7 @@ def normalise(o):
 
 def validate(w, obs, label):
     tf = w.path("ftrace-%s-%d.ndjson" % (label, len(w.tlc_runs)))
-    write_ndjson(tf, [{k: v for k, v in o.items() if k not in ("scn", "err")} for o in obs])
+    write_ndjson(tf, [{k: v for k, v in o.items() if k not in ("scn", "err")} for o in obs], clamp=True)
     r = w.tlc("FaultTrace", TRACE_CFG, env={"VERIF_TRACE": tf}, label="FaultTrace-" + label, timeout=3000)
     if not r["completed"]:
         raise Broken("fault trace validation did not complete: " + r["out"][-3000:])
